@@ -36,6 +36,21 @@ def gen_range(rng):
                 cl.append(kind + v)
         groups.append(",".join(cl))
     return " || ".join(groups)
+def major_boundary_range(rng):
+    """a one-component lower bound next to the next major version written with one or two components, alone and as one group of a
+    union: where 'collapse the range to ==X' must look at the precision of the right bound"""
+    a = rng.choice([2, 3]); lo = rng.choice([f">={a}", f">={a}", f">={a}", f">={a}.0", f">{a}", f">={a}.0.0"]); hi = rng.choice([f"<{a + 1}.0", f"<{a + 1}.0", f"<{a + 1}", f"<{a + 1}", f"<={a + 1}.0", f"<{a + 1}.0.0"])
+    g = ",".join(rng.sample([lo, hi], 2))
+    return rng.choice([g, g, f"<2.7 || {g}", f"{g} || ~2.7", f"{g} || >={a + 1}.1", f"^{a}", f"~{a}", f"{a}.*"])
+def adjacent_point_marker(rng):
+    """a clause that is a half-open range of interpreters, or-ed with the exact full version at its open end (and variations): the union
+    of [a, V) and {V} keeps the lower end inclusive"""
+    y = rng.choice([7, 8, 9, 10])
+    left = rng.choice([f'python_version == "3.{y}"', f'python_full_version ~= "3.{y}.2"', f'python_version in "3.{y}"',
+                       f'python_full_version >= "3.{y}.0" and python_full_version < "3.{y + 1}.0"', f'python_version >= "3.{y}" and python_version < "3.{y + 1}"'])
+    right = rng.choice([f'python_full_version == "3.{y + 1}.0"', f'python_full_version == "3.{y + 1}.0"', f'python_full_version == "3.{y}.0"',
+                        f'python_full_version <= "3.{y + 1}.0" and python_full_version >= "3.{y + 1}.0"', f'python_full_version == "3.{y + 1}.1"'])
+    return rng.choice([f"{left} or {right}", f"{right} or {left}", f"({left}) or ({right})"])
 def interpreters(text):
     import re
     patches = {0, 1, 5, 10}
@@ -136,11 +151,21 @@ def run(tier):
         R.case(dict(range=text), nontrivial=("," in text or "||" in text or text.count(".") >= 2)); R.count("forward")
         d = judge_forward(text, F)
         if d: R.fail(dict(range=text), d, d14_matcher)
+    for _ in range(60 if tier == "quick" else 1200):
+        text = major_boundary_range(rng)
+        R.case(dict(range=text), nontrivial=True); R.count("forward_major_boundary")
+        d = judge_forward(text, F)
+        if d: R.fail(dict(range=text), d, d14_matcher)
+    for _ in range(60 if tier == "quick" else 1200):
+        s = adjacent_point_marker(rng)
+        R.case(dict(marker=s, python_only=True), nontrivial=True); R.count("backward_adjacent_point")
+        d = judge_backward(s, True)
+        if d: R.fail(dict(marker=s, python_only=True), d)
     for _ in range(300 if tier == "quick" else 6000):
         only = rng.random() < 0.6
         s, k, feats = MI.gen_marker(rng, depth=2, leaves=rng.randint(1, 3), focus=["pv", "pfv"] if only else ["pv", "pfv", "str", "extra"])
         R.case(dict(marker=s, python_only=only), nontrivial=k >= 2); R.count("backward_exact" if only else "backward_upper")
-        d = judge_backward(s, only and not (feats - {"pv", "pfv", "reversed"}))
+        d = judge_backward(s, only and not (feats - {"pv", "pfv", "reversed", "pv_in", "pfv_in"}))
         if d: R.fail(dict(marker=s, python_only=only), d)
     F.close()
     return R.finish(K.TRUSTED, ASSUME, RULE, "make -C coq Properties/C11.vo && coqc Properties/C11.v (Print Assumptions)")
